@@ -325,7 +325,7 @@ def loop_case(start_off, horizon, oneshots, crons, failing_source, failing_send,
         if failing_send and i == 0 and want: want = want[1:] if mins and mins[0] != want[0] else want
         if mins != want and not slow_listing:
             pr.append(f"C15: cron schedule {c!r} sent in minutes {mins[:8]}{'...' if len(mins) > 8 else ''}, expected {want[:8]}{'...' if len(want) > 8 else ''}")
-            if not failing_send and not failing_source: pr.append(f"C13: in a loop without any failure the cron schedule {c!r} was considered due in minutes {mins[:8]}{'...' if len(mins) > 8 else ''} of {BASE.isoformat()}; its expression matches in minutes {want[:8]}{'...' if len(want) > 8 else ''}")
+            if not failing_send and not failing_source and not slow_send and not twin_source: pr.append(f"C13: in a loop without any failure the cron schedule {c!r} was considered due in minutes {mins[:8]}{'...' if len(mins) > 8 else ''} of {BASE.isoformat()}; its expression matches in minutes {want[:8]}{'...' if len(want) > 8 else ''}")
     return pr
 
 def run(sc):
